@@ -115,3 +115,21 @@ CLAIMED['C19'] = dict(
 _UC = 'check not built yet in this round (engine exists; harness pending) - will be claimed or declared not applicable with its real reason'
 NA['C13'] = ('key derivation, signing, verification and point validity are computed by OpenSSL through ctypes: there is no Python or IR to execute '
              'symbolically, and the reference (secp256k1 group law, 256-bit modular inversion) is non-linear 256-bit arithmetic out of reach of z3/cvc5')
+
+# call-sequence ("history") obligations added after the seeded-change rounds: several calls on ONE symbolic path
+_H = {
+    'C01': 'Call orders: stripped serialisation / GetWeight before the full serialisation on one object; blocks whose only witness-carrying transaction is the first.',
+    'C02': 'Call sequences: identifier, in-place edit, identifier again on one mutable object; blocks from the wire whose root field is zero or arbitrary.',
+    'C03': 'Call sequences: two digests with two symbolic hash types at two positions plus a repeat of the first, on one transaction object.',
+    'C04': 'Call sequences: digest, in-place edit of existing inputs/outputs (same object, same list lengths), digest again; then after an append.',
+    'C05': 'Call sequences: two independently signed inputs of one transaction object verified alternately; two signature checks in one script.',
+    'C10': 'Call sequences: a refused text is refused again, so is another text with the same character, and valid text still decodes afterwards; 27 fixed texts with line ends / blanks / look-alike digits are concrete runs.',
+    'C11': 'Call sequences: a mixed-case rendering of a just-decoded address is refused; one arbitrary code point (whole Unicode range) inside an otherwise valid upper- or lower-case address.',
+    'C12': 'Call sequences: the same script / the same text under two chains in one process (text parsed under its own chain first); mixed-case and one-non-ASCII-code-point renderings of a valid address are refused.',
+    'C14': 'Call sequences: compressed- and uncompressed-key verifications in either order in one process (symbolic: compression flag seen by the recovery; concrete twin: real OpenSSL).',
+    'C15': 'Call sequences: a block built from mutable transactions that the caller edits afterwards still describes block.vtx.',
+    'C17': 'Call sequences: the same nBits under two chains in one process.',
+    'C18': 'Call sequences: framing the same message again after a chain switch.',
+}
+for _k, _v in _H.items():
+    CLAIMED[_k]['text'] = CLAIMED[_k]['text'] + ' ' + _v
